@@ -82,7 +82,7 @@ def run_tlc(module, cfg, workers=16, env=None, extra=(), timeout=1200, files=(),
             shutil.copy(os.path.join(SPEC, f), d)
     for f in files:
         shutil.copy(f, d)
-    cmd = ["java", "-XX:+UseParallelGC", "-Xmx8g"]
+    cmd = ["java", "-XX:+UseParallelGC", "-Xmx8g", "-Xss512m"]
     if dfs:
         cmd.append("-Dtlc2.tool.queue.IStateQueue=StateDeque")
     cmd += ["-cp", JAR, "tlc2.TLC", "-workers", str(workers), "-metadir", os.path.join(d, "meta"),
